@@ -56,7 +56,7 @@ def check_cell(drv, c, fails):
 def oracle(tier, rng, seeds):
     drv = common.py_driver()
     fails, n = [], 0
-    cs = geo_gens.cells(drv, tier, rng, 300 if tier == 'quick' else 20000)
+    cs = geo_gens.cells(drv, tier, rng, 300 if tier == 'quick' else 60000)
     for op in seeds:
         t = op.split()
         if t[0] == 'c2l' and ref_decode(int(t[1])) is not None:
